@@ -112,3 +112,11 @@ chk("C10", "exploration",
     "hits/misses so the evidence shows the caches were exercised; the stream, positional and per-block APIs are compared on every tool-written file.",
     "The DOT_ENTRIES directory cache is documented as stateful and not used; cursor APIs are exercised as seek+read pairs. Histories are sampled, not enumerated.",
     "history replay against fresh-object reference answers (shadow oracle)", "3/C10")
+chk("C06", "exploration",
+    "Hostile images are built by the independent writer: directory tables with arbitrary name bytes ('.', '..', NUL, '/', absolute and '../' names, trailing '/'), duplicate names combining symlink+directory, "
+    "symlink+file, file+file and dir+dir, unsorted entries, symlinks to victims (relative, absolute, '..', '.', '/'), nested hostile names, devices and fifos. Each is unpacked by the ASan rdsquashfs with ten "
+    "option sets (-C -O -T -X -Z -q -E -D -S -F -L) and several unpack paths into J/R inside a jail that also holds victim files with distinctive owners, modes, times and xattrs and the image itself; a recursive "
+    "snapshot (type, mode, owner, size, mtime_ns, xattrs, sha256 or link target) of everything outside R must be identical before and after. With exit 0 the sanely named entries must be present with the right "
+    "content and skipped hostile names must be reported.",
+    "Before/after observation of the file system (attempts that fail leave no trace; the planned strace monitor is not built). Runs as root on tmpfs.",
+    "before/after jail snapshot around the real unpacker on hostile images", "3/C06")
